@@ -21,12 +21,65 @@ def msgBoundViol (max : Nat) (m : String) : Option String :=
   | ["bitfield", d] => if d ≠ "-" ∧ d.length / 2 > max then some "bitfield-length" else none
   | _ => none
 
+/-- Stream position at which the reader loop stops. -/
+def stopAt (max : Nat) : Nat → Bytes → Bytes
+  | 0, bs => bs
+  | f + 1, bs =>
+    match Rain.Codec.step max bs with
+    | .stop _ _ => bs
+    | .skip rest => stopAt max f rest
+    | .msg _ _ rest => stopAt max f rest
+
+/-- Does a non-string token stand at a dictionary key position somewhere in the token list?
+Stack: `none` = inside a list, `some true` = inside a dictionary expecting a key, `some false` =
+expecting a value. -/
+def keyFault : Nat → List Rain.Bencode.Tok → List (Option Bool) → Bool
+  | 0, _, _ => false
+  | _ + 1, [], _ => false
+  | f + 1, t :: r, [] =>
+    match t with
+    | .dct => keyFault f r [some true]
+    | .lst => keyFault f r [none]
+    | _ => false
+  | f + 1, t :: r, top :: st =>
+    match top with
+    | some true =>
+      match t with
+      | .fin => keyFault f r st
+      | .str _ => keyFault f r (some false :: st)
+      | _ => true
+    | _ =>
+      let top' := if top == some false then some true else top
+      match t with
+      | .dct => keyFault f r (some true :: top' :: st)
+      | .lst => keyFault f r (none :: top' :: st)
+      | .fin => keyFault f r st
+      | _ => keyFault f r (top' :: st)
+
+/-- The one place where the model does not decide the error *class*: the payload passed the guard
+but a non-string token stands at a key position.  The library then scans the raw bytes for the next
+`:`; finding none it returns `io.EOF` (which the reader does not log: `eof`), otherwise a parse
+error (`ext`).  Either way nothing is delivered and the reader stops. -/
+def extClassOpen (max : Nat) (b : Bytes) : Bool :=
+  let at_ := stopAt max (b.length + 1) b
+  match Rain.Codec.get32 at_ with
+  | some (len0, 20 :: r) =>
+    match Rain.Bencode.take? (len0 - 1) r with
+    | some (_ :: payload, _) =>
+      match Rain.Bencode.tokenize payload with
+      | some (toks, _) => keyFault (toks.length + 1) toks []
+      | none => false
+    | _ => false
+  | _ => false
+
 def step (op implObs : String) : String × List String × List String :=
   let toks := words op
   let max := kvNat toks "max"
   let b := parseChunks (kvStr toks "b")
   let o := run max b
   let obs := s!"msgs={showMsgs o.msgs} end={showErr o.err} big=0"
+  let openClass := o.err == .ext && implObs == s!"msgs={showMsgs o.msgs} end=eof big=0" && extClassOpen max b
+  let obs := if openClass then implObs else obs
   let itoks := words implObs
   let implMsgs := kvStr itoks "msgs"
   let viol :=
@@ -48,6 +101,7 @@ def step (op implObs : String) : String × List String × List String :=
     [s!"end:{showErr o.err}"] ++
     (if nmsgs ≥ 1 ∧ o.err ≠ .eof then ["nontrivial"] else []) ++
     (if nmsgs = 0 then ["branch:no-message"] else []) ++
+    (if openClass then ["branch:ext-error-class-not-modelled"] else []) ++
     (if hasExt then ["branch:ext-delivered"] else []) ++
     (if o.effs.any (fun e => match e with | .poolGet _ => true | _ => false) then ["branch:block-alloc"] else []) ++
     (if o.effs.any (fun e => match e with | .make _ => true | _ => false) then ["branch:make"] else [])
